@@ -257,6 +257,11 @@ class Interp:
         env.vars["__relpath__"] = relpath
         env.vars["__cls__"] = cls
         env.vars["__yields__"] = []
+        lcache = self.__dict__.setdefault("_local_cache", {})
+        ln = lcache.get(id(node))
+        if ln is None:
+            ln = lcache[id(node)] = _local_names(node)
+        env.vars["__localnames__"] = ln
         self._bind(node.args, args, kwargs, env, relpath, cls)
         cache = self.__dict__.setdefault("_gen_cache", {})
         is_gen = cache.get(id(node))
@@ -780,6 +785,13 @@ class Interp:
         ok, v = env.lookup(e.id)
         if ok:
             return v
+        # a name that is assigned somewhere in the current function is a local: reading it before it is bound
+        # is UnboundLocalError in Python
+        fe = env
+        while fe is not None and "__localnames__" not in fe.vars:
+            fe = fe.parent
+        if fe is not None and e.id in fe.vars["__localnames__"]:
+            raise Raised(ExcVal("UnboundLocalError", (f"cannot access local variable '{e.id}' where it is not associated with a value",)), e)
         return self.global_name(e.id, env, e)
 
     def module_const(self, rel: str, name: str):
@@ -1275,6 +1287,56 @@ class Interp:
                     continue
                 raise Unsupported(f"isinstance against {x!r}")
         return False
+
+
+def _local_names(fn) -> frozenset:
+    """Names bound by assignment anywhere in a function body (its locals), excluding nested scopes and parameters."""
+    names = set()
+    if isinstance(fn, ast.Lambda):
+        return frozenset()
+    for n in _walk_own(fn):
+        if isinstance(n, ast.Name) and isinstance(n.ctx, (ast.Store, ast.Del)):
+            names.add(n.id)
+        elif isinstance(n, ast.ExceptHandler) and n.name:
+            names.add(n.name)
+    for sub in ast.iter_child_nodes(fn):
+        pass
+    # names declared global/nonlocal are not locals
+    for n in _walk_own(fn):
+        if isinstance(n, (ast.Global, ast.Nonlocal)):
+            names -= set(n.names)
+    a = fn.args
+    params = {x.arg for x in a.posonlyargs + a.args + a.kwonlyargs}
+    if a.vararg:
+        params.add(a.vararg.arg)
+    if a.kwarg:
+        params.add(a.kwarg.arg)
+    # comprehension targets live in their own scope
+    comp = set()
+    for n in _walk_own(fn):
+        if isinstance(n, ast.comprehension):
+            for t in ast.walk(n.target):
+                if isinstance(t, ast.Name):
+                    comp.add(t.id)
+    direct = set()
+    for n in _walk_own(fn):
+        if isinstance(n, (ast.ListComp, ast.SetComp, ast.DictComp, ast.GeneratorExp)):
+            continue
+    return frozenset(names - params - (comp - _names_outside_comps(fn)))
+
+
+def _names_outside_comps(fn) -> set:
+    out = set()
+    stack = list(ast.iter_child_nodes(fn))
+    while stack:
+        n = stack.pop()
+        if isinstance(n, (ast.FunctionDef, ast.AsyncFunctionDef, ast.Lambda, ast.ClassDef, ast.ListComp, ast.SetComp,
+                          ast.DictComp, ast.GeneratorExp)):
+            continue
+        if isinstance(n, ast.Name) and isinstance(n.ctx, (ast.Store, ast.Del)):
+            out.add(n.id)
+        stack.extend(ast.iter_child_nodes(n))
+    return out
 
 
 def _has_obj(v, depth=0) -> bool:
